@@ -1,0 +1,6 @@
+//go:build go1.22 && !verif
+
+package xruntime
+
+// verifRand is the disabled form of the verification randomness hook.
+func verifRand() (uint32, bool) { return 0, false }
